@@ -190,6 +190,11 @@ type Receive struct {
 	Sel   *ssa.Select     // nil for a plain receive
 	Arm   int
 	Chan  ssa.Value
+	// Call: the Result is not received here but returned by a helper of the package that does the
+	// receive (result, cancelled := evalOperand(...)); Flags are the helper's other (boolean)
+	// results with the constant they have when the helper returns what it received
+	Call  *ssa.Call
+	Flags map[ssa.Value]int
 }
 
 // Receives finds every receive of a Result in fn.
@@ -197,6 +202,10 @@ func (ri *ResultInfo) Receives(fn *ssa.Function) []Receive {
 	var out []Receive
 	Instrs(fn, func(b *ssa.BasicBlock, _ int, ins ssa.Instruction) {
 		switch x := ins.(type) {
+		case *ssa.Call:
+			if rc, ok := ri.callReceive(fn, b, x); ok {
+				out = append(out, rc)
+			}
 		case *ssa.UnOp:
 			if x.Op == token.ARROW && ri.IsResult(x.Type()) {
 				out = append(out, Receive{Fn: fn, Value: x, Start: b, Head: b, Chan: x.X})
@@ -234,6 +243,83 @@ func (ri *ResultInfo) Receives(fn *ssa.Function) []Receive {
 		}
 	})
 	return out
+}
+
+// callReceive: call is a call of a function of the same package that receives a Result from a
+// channel and returns it as its first result (on the path on which nothing else happened).
+func (ri *ResultInfo) callReceive(fn *ssa.Function, b *ssa.BasicBlock, call *ssa.Call) (Receive, bool) {
+	h := call.Call.StaticCallee()
+	if h == nil || h == fn || h.Blocks == nil || FuncPkg(h) == nil || FuncPkg(h) != FuncPkg(fn) || h.Signature.Results().Len() == 0 || !ri.IsResult(h.Signature.Results().At(0).Type()) {
+		return Receive{}, false
+	}
+	var inner []Receive
+	Instrs(h, func(hb *ssa.BasicBlock, _ int, ins ssa.Instruction) {
+		switch x := ins.(type) {
+		case *ssa.UnOp:
+			if x.Op == token.ARROW && ri.IsResult(x.Type()) {
+				inner = append(inner, Receive{Value: x})
+			}
+		case *ssa.Select:
+			idx := 2
+			for _, st := range x.States {
+				if st.Dir != types.RecvOnly {
+					continue
+				}
+				if ch, ok := st.Chan.Type().Underlying().(*types.Chan); ok && ri.IsResult(ch.Elem()) && x.Referrers() != nil {
+					for _, r := range *x.Referrers() {
+						if ex, ok := r.(*ssa.Extract); ok && ex.Index == idx {
+							inner = append(inner, Receive{Value: ex})
+						}
+					}
+				}
+				idx++
+			}
+		}
+	})
+	if len(inner) != 1 {
+		return Receive{}, false
+	}
+	recv := inner[0].Value
+	// the return that hands the received value on, and the constants of its other results
+	flags := map[int]int{}
+	found := false
+	Instrs(h, func(_ *ssa.BasicBlock, _ int, ins ssa.Instruction) {
+		ret, ok := ins.(*ssa.Return)
+		if !ok || len(ret.Results) == 0 || ret.Results[0] != recv {
+			return
+		}
+		found = true
+		for i, rv := range ret.Results[1:] {
+			if k, ok := rv.(*ssa.Const); ok && k.Value != nil && BoolType(k.Type()) {
+				if k.Value.String() == "true" {
+					flags[i+1] = 1
+				} else {
+					flags[i+1] = 0
+				}
+			}
+		}
+	})
+	if !found {
+		return Receive{}, false
+	}
+	rc := Receive{Fn: fn, Start: b, Head: b, Call: call, Flags: map[ssa.Value]int{}}
+	if h.Signature.Results().Len() == 1 {
+		rc.Value = call
+	} else if call.Referrers() != nil {
+		for _, r := range *call.Referrers() {
+			if ex, ok := r.(*ssa.Extract); ok {
+				if ex.Index == 0 {
+					rc.Value = ex
+				} else if c, ok := flags[ex.Index]; ok {
+					rc.Flags[ex] = c
+				}
+			}
+		}
+	}
+	if rc.Value == nil {
+		return Receive{}, false
+	}
+	return rc, true
 }
 
 // SelectArmBody returns the block entered when select state i fires.
@@ -275,12 +361,20 @@ type cellState struct {
 
 type execState struct {
 	cells map[ssa.Value]cellState // Alloc cells of type Result
+	bools map[ssa.Value]int       // boolean phis (a && b kept in a variable): 0, 1, -1 unknown
+	loads map[ssa.Value]int       // loads of a cell's Err (0 nil, 1 non-nil) or Membership (10+m) field, as read when executed
 }
 
 func (s execState) clone() execState {
-	n := execState{cells: make(map[ssa.Value]cellState, len(s.cells))}
+	n := execState{cells: make(map[ssa.Value]cellState, len(s.cells)), bools: make(map[ssa.Value]int, len(s.bools)), loads: make(map[ssa.Value]int, len(s.loads))}
+	for k, v := range s.loads {
+		n.loads[k] = v
+	}
 	for k, v := range s.cells {
 		n.cells[k] = v
+	}
+	for k, v := range s.bools {
+		n.bools[k] = v
 	}
 	return n
 }
@@ -290,6 +384,12 @@ func (s execState) key() string {
 	for k, v := range s.cells {
 		ks = append(ks, fmt.Sprintf("%s=%v%v", k.Name(), v.val, v.pass))
 	}
+	for k, v := range s.bools {
+		ks = append(ks, fmt.Sprintf("%s=%d", k.Name(), v))
+	}
+	for k, v := range s.loads {
+		ks = append(ks, fmt.Sprintf("%s:%d", k.Name(), v))
+	}
 	sort.Strings(ks)
 	return strings.Join(ks, ";")
 }
@@ -298,24 +398,35 @@ func (s execState) key() string {
 // returns the outcomes of all paths. isSink tells which channel sends / field
 // stores are "productions" (send on a Result channel; store to a Result field).
 type Exec struct {
-	RI       *ResultInfo
-	Rc       Receive
-	Unknown  []string // constructs the executor could not interpret
-	outcomes []PathOutcome
-	seen     map[string]bool
-	recvVal  ssa.Value
-	phiBusy  map[ssa.Value]bool // phis being evaluated (loop-carried values)
+	RI        *ResultInfo
+	Rc        Receive
+	Unknown   []string // constructs the executor could not interpret
+	outcomes  []PathOutcome
+	seen      map[string]bool
+	recvVal   ssa.Value
+	phiBusy   map[ssa.Value]bool // phis being evaluated (loop-carried values)
+	callDepth int                // nesting of executed helpers
 }
 
 func (ri *ResultInfo) Run(rc Receive, in AbsRes) ([]PathOutcome, []string) {
 	ex := &Exec{RI: ri, Rc: rc, seen: map[string]bool{}, recvVal: rc.Value}
-	st := execState{cells: map[ssa.Value]cellState{}}
+	st := execState{cells: map[ssa.Value]cellState{}, bools: map[ssa.Value]int{}, loads: map[ssa.Value]int{}}
 	// the received value itself is an SSA value; bind it under its own key
 	if rc.Value != nil {
 		st.cells[rc.Value] = cellState{val: in, pass: true}
 	}
 	start := 0
-	if rc.Sel == nil {
+	if rc.Call != nil {
+		// start after the call; its boolean results have the value of the pass-through return
+		for i, ins := range rc.Start.Instrs {
+			if ins == ssa.Instruction(rc.Call) {
+				start = i + 1
+			}
+		}
+		for v, c := range rc.Flags {
+			st.bools[v] = c
+		}
+	} else if rc.Sel == nil {
 		// plain receive: start after the receive instruction
 		for i, ins := range rc.Start.Instrs {
 			if v, ok := ins.(ssa.Value); ok && v == rc.Value {
@@ -323,7 +434,7 @@ func (ri *ResultInfo) Run(rc Receive, in AbsRes) ([]PathOutcome, []string) {
 			}
 		}
 	}
-	ex.block(rc.Start, start, st, 0)
+	ex.block(rc.Start, start, st, 0, nil)
 	// dedupe
 	m := map[string]PathOutcome{}
 	for _, o := range ex.outcomes {
@@ -384,6 +495,11 @@ func (ex *Exec) resultOf(v ssa.Value, st execState) (cellState, bool) {
 		if first != nil {
 			return *first, true
 		}
+	case *ssa.Const:
+		// the zero Result (x = Result{}; var x Result): no membership, no error
+		if ex.RI.IsResult(x.Type()) {
+			return cellState{val: AbsRes{M: ex.RI.abs(0)}}, true
+		}
 	case *ssa.Call:
 		// a call returning a Result: not a constant
 	}
@@ -395,6 +511,9 @@ func (ex *Exec) errOf(v ssa.Value, st execState) (nonNil bool, known bool) {
 	v = Unwrap(v)
 	if IsNilConst(v) {
 		return false, true
+	}
+	if l, ok := st.loads[v]; ok && l < 10 {
+		return l == 1, true
 	}
 	switch x := v.(type) {
 	case *ssa.UnOp:
@@ -491,6 +610,14 @@ func (ex *Exec) cond(v ssa.Value, st execState) int {
 			}
 			return 1 - c
 		}
+	case *ssa.Phi:
+		if c, ok := st.bools[x]; ok {
+			return c
+		}
+	case *ssa.Extract:
+		if c, ok := st.bools[x]; ok {
+			return c
+		}
 	case *ssa.Const:
 		if x.Value != nil && x.Value.String() == "true" {
 			return 1
@@ -504,6 +631,9 @@ func (ex *Exec) cond(v ssa.Value, st execState) int {
 
 // errOfStrict only answers for loads of a tracked cell's Err field.
 func (ex *Exec) errOfStrict(v ssa.Value, st execState) (bool, bool) {
+	if l, ok := st.loads[v]; ok && l < 10 {
+		return l == 1, true
+	}
 	switch x := v.(type) {
 	case *ssa.UnOp:
 		if x.Op == token.MUL {
@@ -524,6 +654,9 @@ func (ex *Exec) errOfStrict(v ssa.Value, st execState) (bool, bool) {
 }
 
 func (ex *Exec) memOf(v ssa.Value, st execState) (int, bool) {
+	if l, ok := st.loads[v]; ok && l >= 9 {
+		return l - 10, true
+	}
 	switch x := v.(type) {
 	case *ssa.UnOp:
 		if x.Op == token.MUL {
@@ -547,7 +680,7 @@ func (ex *Exec) emit(kind string, cs cellState, pos token.Pos) {
 	ex.outcomes = append(ex.outcomes, PathOutcome{Kind: kind, Val: cs.val, Pass: cs.pass, Pos: pos})
 }
 
-func (ex *Exec) block(b *ssa.BasicBlock, from int, st execState, depth int) {
+func (ex *Exec) block(b *ssa.BasicBlock, from int, st execState, depth int, prev *ssa.BasicBlock) {
 	key := fmt.Sprintf("%d@%d|%s", b.Index, from, st.key())
 	if ex.seen[key] || depth > 200 {
 		return
@@ -556,6 +689,27 @@ func (ex *Exec) block(b *ssa.BasicBlock, from int, st execState, depth int) {
 	if from == 0 && b == ex.Rc.Head && ex.Rc.Sel != nil {
 		ex.outcomes = append(ex.outcomes, PathOutcome{Kind: "continue"})
 		return
+	}
+	if from == 0 && prev != nil {
+		// boolean phis take the value of the edge we came in on (all at once: they are parallel)
+		vals := map[ssa.Value]int{}
+		for _, ins := range b.Instrs {
+			ph, ok := ins.(*ssa.Phi)
+			if !ok {
+				break
+			}
+			if !BoolType(ph.Type()) {
+				continue
+			}
+			for k, pr := range b.Preds {
+				if pr == prev && k < len(ph.Edges) {
+					vals[ph] = ex.cond(ph.Edges[k], st)
+				}
+			}
+		}
+		for k, v := range vals {
+			st.bools[k] = v
+		}
 	}
 	for i := from; i < len(b.Instrs); i++ {
 		switch x := b.Instrs[i].(type) {
@@ -643,14 +797,14 @@ func (ex *Exec) block(b *ssa.BasicBlock, from int, st execState, depth int) {
 		case *ssa.If:
 			c := ex.cond(x.Cond, st)
 			if c != 0 {
-				ex.block(b.Succs[0], 0, st.clone(), depth+1)
+				ex.block(b.Succs[0], 0, st.clone(), depth+1, b)
 			}
 			if c != 1 {
-				ex.block(b.Succs[1], 0, st.clone(), depth+1)
+				ex.block(b.Succs[1], 0, st.clone(), depth+1, b)
 			}
 			return
 		case *ssa.Jump:
-			ex.block(b.Succs[0], 0, st, depth+1)
+			ex.block(b.Succs[0], 0, st, depth+1, b)
 			return
 		case *ssa.Select:
 			if x == ex.Rc.Sel {
@@ -658,9 +812,64 @@ func (ex *Exec) block(b *ssa.BasicBlock, from int, st execState, depth int) {
 				return
 			}
 		case *ssa.UnOp:
+			if x.Op == token.MUL {
+				// a field of a tracked cell is read now: later stores to the cell do not change it
+				if fa, ok := x.X.(*ssa.FieldAddr); ok {
+					if cs, ok := st.cells[fa.X]; ok {
+						switch fa.Field {
+						case ex.RI.EField:
+							st.loads[x] = 0
+							if cs.val.Err {
+								st.loads[x] = 1
+							}
+						case ex.RI.MField:
+							st.loads[x] = 10 + cs.val.M
+						}
+					}
+				}
+			}
 			if x.Op == token.ARROW && ssa.Value(x) == ex.recvVal {
 				ex.outcomes = append(ex.outcomes, PathOutcome{Kind: "continue"})
 				return
+			}
+		case *ssa.Call:
+			if ex.Rc.Call != nil && x == ex.Rc.Call {
+				ex.outcomes = append(ex.outcomes, PathOutcome{Kind: "continue"})
+				return
+			}
+			// a helper of the package that turns a Result into a Result (the inversion, the
+			// folding of an operand, ... extracted into a function): execute it with the argument's
+			// abstract value and go on once per way it can return
+			if h := x.Call.StaticCallee(); h != nil && h.Blocks != nil && ex.callDepth < 2 && FuncPkg(h) != nil && FuncPkg(h) == FuncPkg(b.Parent()) && ex.RI.IsResult(x.Type()) {
+				bound := false
+				sub := &Exec{RI: ex.RI, seen: map[string]bool{}, callDepth: ex.callDepth + 1}
+				sst := execState{cells: map[ssa.Value]cellState{}, bools: map[ssa.Value]int{}, loads: map[ssa.Value]int{}}
+				for k, a := range x.Call.Args {
+					if k < len(h.Params) && ex.RI.IsResult(a.Type()) {
+						if cs, ok := ex.resultOf(a, st); ok {
+							sst.cells[h.Params[k]] = cs
+							bound = true
+						}
+					}
+				}
+				if bound {
+					sub.block(h.Blocks[0], 0, sst, 0, nil)
+					ex.Unknown = append(ex.Unknown, sub.Unknown...)
+					rets := map[cellState]bool{}
+					for _, o := range sub.outcomes {
+						if o.Kind == "return" {
+							rets[cellState{val: o.Val, pass: o.Pass}] = true
+						}
+					}
+					if len(rets) > 0 {
+						for cs := range rets {
+							st2 := st.clone()
+							st2.cells[x] = cs
+							ex.block(b, i+1, st2, depth+1, prev)
+						}
+						return
+					}
+				}
 			}
 		}
 	}
